@@ -103,6 +103,7 @@ def instances(tier):
     for sid, shape in curated().items():
         if sid in ("neg-src-rs",):
             continue
-        out.append(Instance("C02", "sys_common:s_run", dict(shape=shape, oracle="c02"), name="S/" + sid, uf=True,
-                            cover=["solved"], weight=20, max_paths=3000))
+        names = [n["name"] for n in shape["nodes"] if n["kind"] != "Source"]
+        out.append(Instance("C02", "sys_common:s_run", dict(shape=shape, oracle="c02", opts={"rt": names[-2:], "ta": True}),
+                            name="S/" + sid, uf=True, cover=["solved"], weight=20, max_paths=3000))
     return out, META
